@@ -1,4 +1,5 @@
 """Hypothesis stateful drivers for the WASI family: seeded runs in worker processes, history capture, replay files."""
+from . import cexec
 import collections
 import traceback
 
@@ -45,7 +46,7 @@ def run_machine(machine_cls, seed, max_examples, steps):
     except (Violation, AgentDied) as e:
         sig = e.sig if isinstance(e, Violation) else 'agent-died:' + f1.normalize_diag(
             ([l for l in e.stderr.splitlines() if 'ERROR' in l or 'runtime error' in l] or [''])[0])
-        msg = str(e) if isinstance(e, Violation) else '%s\n%s' % (e, e.stderr[-1200:])
+        msg = str(e) if isinstance(e, Violation) else '%s\n%s' % (e, cexec.san_head(e.stderr, 1200))
         res['violations'].append({'signature': sig, 'summary': msg[:900],
                                   'replay': {'kind': 'wasi-history', 'machine': machine_cls.__name__,
                                              'history': LAST['history'], 'npreopen': LAST.get('npreopen', 1), 'message': msg[:3000]}})
